@@ -77,7 +77,10 @@ class SliceModel(object):
     def lerp(lv_, ln, rv, rn, pos):
         if ln == rn or not np.isfinite(ln) or not np.isfinite(rn):
             return rv
-        return (lv_ * (rn - pos) + rv * (pos - ln)) / (rn - ln)
+        with np.errstate(all="ignore"):
+            e = (lv_ * (rn - pos) + rv * (pos - ln)) / (rn - ln)
+            # equal samples interpolate to themselves (also +-inf, where the formula above is inf as well)
+            return np.where(lv_ == rv, rv, e)
 
     def reference(self, m, L):
         """Returns dict with per pixel (level-L grid, shape (nx, ny)):
